@@ -72,8 +72,8 @@ const (
 )
 
 func App(op string, s *Sort, args ...*T) *T { return &T{Op: op, Args: args, S: s, Kind: kApp} }
-func Var(name string, s *Sort) *T            { return &T{Op: name, S: s, Kind: kVar} }
-func IntLit(n int64) *T                      { return &T{Op: strconv.FormatInt(n, 10), S: SInt, Kind: kInt} }
+func Var(name string, s *Sort) *T           { return &T{Op: name, S: s, Kind: kVar} }
+func IntLit(n int64) *T                     { return &T{Op: strconv.FormatInt(n, 10), S: SInt, Kind: kInt} }
 func BoolLit(b bool) *T {
 	if b {
 		return tTrue
